@@ -26,8 +26,9 @@ type c15QCase struct {
 }
 
 const c15MaYang = `module ma { namespace "urn:ma"; prefix ma;
+ identity animal; identity dog { base animal; }
  grouping g {
-  container sys { leaf name { type string; }
+  container sys { leaf name { type string; } leaf pet { type identityref { base animal; } }
    container inner { leaf x { type string; } }
    choice transport { case tcp { leaf port { type int32; } } case udp { container dgram { leaf size { type int32; } } } }
    list l { key k; leaf k { type string; } leaf v { type string; } } } } }`
@@ -51,7 +52,7 @@ var c15Augs = []c15Aug{
 
 func c15MbYang(augs []string) string {
 	var b strings.Builder
-	b.WriteString("module mb { namespace \"urn:mb\"; prefix mb; import ma { prefix ma; }\n uses ma:g;\n")
+	b.WriteString("module mb { namespace \"urn:mb\"; prefix mb; import ma { prefix ma; }\n identity cat { base ma:animal; }\n uses ma:g;\n")
 	for _, a := range c15Augs {
 		if containsStr(augs, a.Name) {
 			b.WriteString(" " + a.Yang + "\n")
@@ -91,7 +92,9 @@ func c15Model(augs []string) *dm.Node {
 	if has("list") {
 		l.Children = append(l.Children, str("lx", "mb"), &dm.Node{Kind: "container", Name: "lc", Mod: "mb", Children: []*dm.Node{str("y", "mb")}})
 	}
-	sys := &dm.Node{Kind: "container", Name: "sys", Mod: "ma", Children: []*dm.Node{str("name", "ma"), inner, ch, l}}
+	// an identityref of module ma that also takes the identity module mb derives from ma's base
+	pet := &dm.Node{Kind: "leaf", Name: "pet", Mod: "ma", Type: &dm.Type{Base: "identityref", IdBase: "animal", Idents: []string{"dog", "cat"}}}
+	sys := &dm.Node{Kind: "container", Name: "sys", Mod: "ma", Children: []*dm.Node{str("name", "ma"), pet, inner, ch, l}}
 	if has("sys") {
 		box := &dm.Node{Kind: "container", Name: "box", Mod: "mb", Children: []*dm.Node{str("in", "mb")}}
 		if has("box") {
@@ -202,6 +205,22 @@ func c15QRun(c c15QCase, o *hx.Obs) {
 				}
 				o.Failf("jsonw|qualified|name-qualification|"+kind, "%s: member %q: node %s is defined by module %s, its parent data node by %q, so the name must be %q\n%s", where, member, bare, mod, parentMod, strings.TrimPrefix(wantPrefix+":"+bare, ":"), text)
 				return false
+			}
+			if d.Name == "pet" {
+				// RFC 7951 6.8: the identity's module is named when it is not the module of the leaf
+				got, _ := obj[member].(string)
+				want := map[string][]string{"dog": {"dog", "ma:dog"}, "cat": {"mb:cat"}}
+				ok := false
+				for label, forms := range want {
+					if strings.TrimPrefix(strings.TrimPrefix(got, "ma:"), "mb:") == label {
+						o.Class("identityref of the imported module holds %s", label)
+						ok = containsStr(forms, got)
+					}
+				}
+				if !ok {
+					o.Failf("jsonw|qualified|identityref-module", "%s: leaf pet of module ma is written as %v (identity dog is ma's, cat is mb's)\n%s", where, obj[member], text)
+					return false
+				}
 			}
 			switch d.Kind {
 			case "container":
